@@ -126,6 +126,9 @@ func (m *Mon) Update(f MonFlags, sc *Scenario, pre *View, a Action, res *StepRes
 	if !f.Vol && !f.Req && !f.Ctx && !f.CB && !f.Kill && !f.Dis && !f.Restart {
 		return m
 	}
+	if a.Kind == "restart" && res.OK() {
+		return monAfterRestart(f, m, post)
+	}
 	n := m.clone()
 	if f.Vol {
 		// every response record that appears is one accepted response
